@@ -237,6 +237,14 @@ def gen_run(seed, index):
         if nsys > 1:
             for s in solves:
                 s["y0c"] = [rng.choice(Y0_MULT) for _ in range(neq * nsys)]
+        if variant.startswith("cvode_cusparse"):
+            # the number of systems may change wherever the user calls Reset (the first call always does)
+            cur = nsys
+            for k, s in enumerate(solves):
+                if (k == 0 or s["reset"]) and rng.random() < 0.35:
+                    cur = rng.choice([n for n in (1, 2, 3, 4, 6) if n != cur])
+                if len(s["y0c"]) != neq * cur:
+                    s["y0c"] = [rng.choice(Y0_MULT) for _ in range(neq * cur)]
     # overlapping lifetimes: the previous object of this driver process stays initialised during this run
     return {"variant": variant, "nsys": nsys, "solves": solves, "origin": ["seeded", seed, index],
             "overlap": 1 if rng.random() < 0.2 else 0}
@@ -333,6 +341,20 @@ def ladder_stratum():
                 runs.append({"variant": "odeint", "nsys": 1, "origin": ["budget", mx, n, shape], "solves": [
                     {"mode": m, "reset": 0, "mxsteps": mx, "dt": 1e9, "y0c": [0.0, 0.25, 1.5, 7.0, 3.0],
                      "nsteps": n, "shape": shape, "throw_at": -1, "throw_kind": 0} for m in (0, 1)]})
+    # cusparse: the object is initialised for n1 systems, Reset for n2, then solves (clean and failing)
+    for variant in [v for v in VARIANTS if v.startswith("cvode_cusparse")]:
+        neq = neq_of(variant)
+        for n1 in (1, 2, 4):
+            for n2 in (1, 2, 3, 6):
+                for n3 in (n2, 1, 5):
+                    batch = []
+                    for n, reset in ((n2, 0), (n2, 0), (n3, 1), (n3, 2)):
+                        for oc in ([], [[-1, 0.5]]):
+                            batch.append({"mode": 0, "reset": reset, "mxsteps": 500, "dt": 1e9,
+                                          "y0c": [Y0_BASE[(i + j) % len(Y0_BASE)] + j for j in range(n) for i in range(neq)],
+                                          "outcomes": [list(o) for o in oc], "reinit_fail": [], "setup": [-1, 0], "tail": None})
+                            reset = 0
+                    runs.append({"variant": variant, "nsys": n1, "solves": batch, "origin": ["systems", n1, n2, n3]})
     # odeint: a failing first attempt (budget or integrator exception) where a second attempt,
     # if the code under test makes one, would find an easy / a hard problem
     for variant in ("odeint", "odeint_plain"):
@@ -429,8 +451,13 @@ def judge(variant, solve, res, mx_eff=None):
 # execution
 # --------------------------------------------------------------------------
 def run_driver(binpath, lines, cwd, trace=False, timeout=600):
-    p = subprocess.run([binpath] + (["trace"] if trace else []), input="\n".join(lines) + "\n",
-                       capture_output=True, text=True, cwd=cwd, timeout=timeout)
+    try:
+        p = subprocess.run([binpath] + (["trace"] if trace else []), input="\n".join(lines) + "\n",
+                           capture_output=True, text=True, cwd=cwd, timeout=timeout)
+    except subprocess.TimeoutExpired as e:
+        # the driver's own watchdog did not fire (e.g. stuck in a signal-unsafe state): same verdict
+        so = e.stdout.decode() if isinstance(e.stdout, bytes) else (e.stdout or "")
+        return 3, so, "driver timed out"
     return p.returncode, p.stdout, p.stderr
 
 
@@ -578,7 +605,7 @@ def minimise(bins, workdir, run, k, clause):
             c3 = dict(s, **{kk: c2[kk] for kk in c2})
             if fails(with_solve(c3), k):
                 s = c3
-    c2 = dict(s, y0c=Y0_BASE[: neq_of(run["variant"])] * run["nsys"])
+    c2 = dict(s, y0c=Y0_BASE[: neq_of(run["variant"])] * (len(s["y0c"]) // neq_of(run["variant"])))
     if fails(with_solve(c2), k):
         s = c2
     return with_solve(s), k
